@@ -28,7 +28,7 @@ def H(alg: SV, content: SV) -> SV:
 from pyvc.types import TKey, TList, TSeq, TSet, TTuple, canon  # noqa: E402
 from specs.records import HashInfo, Meta  # noqa: E402
 
-FileSystem = TRef("FileSystem", fields=dict(protocol=TStr, jobs=TInt, PARAM_CHECKSUM=TStr, sep=TStr, is_local=TBool,
+FileSystem = TRef("FileSystem", fields=dict(protocol=TStr, jobs=TInt, PARAM_CHECKSUM=TStr, sep=TStr, is_local=TBool, immutable=TBool,
                                             # ghost: paths that exist / paths removed so far (monotone log)
                                             files=TSet(TStr), removed=TSet(TStr)))
 # objs: the abstract view of a store = the set of object ids present (as HashInfo(hash_name, oid))
